@@ -49,6 +49,7 @@ func init() {
 			"scalars are NaN-free and -0-free; a leaf is null iff its Go value is nil (wire scalar {nil,<nil>})",
 			"keys come from a path-safe pool (no key ends in an index group: the API invariant discussed under D26)",
 			"ConfigHelper.Result() passes through a yaml.v3 encode/decode round trip; expected values are normalised through the same round trip (external library, contract validated by correspondence only)",
+			"heap tie: a node object is identified by the address its pointer holds (a sealed view and its builder are one object), a children map by the address of its header (Children() returns the map itself); item slices are not observable by identity and are covered by the in-place write probes; the overlay's internal layer roots are not reachable through the API, the given layer documents stand for them (same members)",
 		}})
 	evals["C04"] = c04Eval
 	shrinkers["C04"] = shrinkJSON
